@@ -74,6 +74,7 @@ class World:
         self.ref_attrs = [[] for _ in range(n)]     # (name, target entity, required) non-collection relation attrs
         self.m2m_attrs = [[] for _ in range(n)]     # (name, target entity)
         for k, r in enumerate(spec['rels']):
+            if r['kind'] == 'none': continue          # relationship removed by the shrinker (numbering of the others is kept)
             a, b = r['a'], r['b']; rn, sn = 'r%d' % k, 's%d' % k
             kw = {} if r['cascade'] is None else {'cascade_delete': r['cascade']}
             if r['kind'] == 'm2o':
@@ -462,7 +463,7 @@ class Run:
         self.count('outcome:' + ('ok' if err is None else type(err).__name__))
         for wr in trace: self.count('stmt:' + wr[0])
         if unknown: self.problems.append(('infrastructure: unparsed statement', unknown[:2]))
-        if any(-1 in wr[1:] for wr in trace): self.problems.append(('infrastructure: statement for an unknown object', trace))
+        if err is None and any(-1 in wr[1:] for wr in trace): self.problems.append(('infrastructure: statement for an unknown object', trace))
         # ---------------- property oracle
         if not cyclic and err is not None:
             det = {'error': str(err)[:300], 'statements_so_far': trace}
@@ -496,9 +497,16 @@ class Run:
                         failed = 'flush'; break
                     except LookupError:
                         self.count('op-stale'); continue
-                    except (core.ConstraintError, core.CacheIndexError, core.OperationWithDeletedObjectError, core.UnrepeatableReadError, ValueError, core.TransactionError, RecursionError, AssertionError) as e:
-                        self.count('op-refused:' + type(e).__name__); failed = 'op'
-                        if isinstance(e, (AssertionError, RecursionError)): self.byproducts.append((type(e).__name__, self.hist + [done]))
+                    except (core.ConstraintError, core.CacheIndexError, core.OperationWithDeletedObjectError, core.UnrepeatableReadError, ValueError, core.TransactionError) as e:
+                        self.count('op-refused:' + type(e).__name__); failed = 'op'; break
+                    except Exception as e:
+                        # a crash INSIDE Pony's object layer (undo closures, unbounded cascade recursion): outside C16; the
+                        # session is rolled back and the history reported in the notes.  Anything raised by the engine itself is re-raised.
+                        tb = e.__traceback__
+                        while tb.tb_next is not None: tb = tb.tb_next
+                        if 'pony' not in tb.tb_frame.f_code.co_filename and not isinstance(e, RecursionError): raise
+                        self.count('op-crashed:' + type(e).__name__); failed = 'op'
+                        self.byproducts.append((type(e).__name__, self.hist + [done]))
                         break
                     if ok is False: failed = 'flush'; break
                 if failed is None:
@@ -575,6 +583,13 @@ def shrink(ctx, spec, hist, strict, what):
                 if h2 and fails(spec, h2):
                     hist = h2; changed = True; break
             if changed: break
+        if not changed:
+            for k, r in enumerate(spec['rels']):
+                if r['kind'] == 'none': continue
+                s2 = {'ents': spec['ents'], 'rels': [dict(x) for x in spec['rels']]}
+                s2['rels'][k] = {'kind': 'none', 'a': 0, 'b': 0, 'req': False, 'cascade': None}
+                if fails(s2, hist):
+                    spec = s2; changed = True; break
     return spec, hist
 
 def canon_key(spec, hist, what):
